@@ -43,13 +43,18 @@ def check_simulation_result(ins, outs, env, acc):
             if not np.array_equal(r.array, vals):
                 acc.violation("array_differs_from_given", case, None)
             ok = True
+            why = None
             for a, i in enumerate(ins):
                 for b, o in enumerate(outs):
                     v = vals[a, b]
-                    if r[S(list(i)), S(list(o))] != v or r[S(list(i))][S(list(o))] != v or r.array[a, b] != v:
-                        ok = False
+                    try:
+                        if r[S(list(i)), S(list(o))] != v or r[S(list(i))][S(list(o))] != v or r.array[a, b] != v:
+                            ok = False
+                    except Exception as e:  # noqa: BLE001
+                        ok, why = False, {"input": i, "output": o, "value": complex(v), "error": repr(e)}
             if not ok:
-                acc.violation("indexing_inconsistent", case, None)
+                acc.violation("indexing_inconsistent", case, why)
+                continue
             # read-only views (dataframe with two thresholds, printing) must leave every access path unchanged
             import contextlib, io
             if len(ins) + len(outs) <= 3 or (len(ins) * 7 + len(outs) * 3 + sum(map(sum, outs))) % 11 == 0:
@@ -61,7 +66,10 @@ def check_simulation_result(ins, outs, env, acc):
             ok2 = np.array_equal(r.array, vals)
             for a, i in enumerate(ins):
                 for b, o in enumerate(outs):
-                    if r[S(list(i)), S(list(o))] != vals[a, b] or r[S(list(i))][S(list(o))] != vals[a, b]:
+                    try:
+                        if r[S(list(i)), S(list(o))] != vals[a, b] or r[S(list(i))][S(list(o))] != vals[a, b]:
+                            ok2 = False
+                    except Exception:  # noqa: BLE001
                         ok2 = False
             if not ok2:
                 acc.violation("result_changed_by_displaying_it", case, None)
@@ -110,8 +118,13 @@ def check_mapped(m, ins, outs, vals, kind, inv, case, acc, times):
     for a, i in enumerate(ins):
         for b, o in enumerate(mo):
             w = want[i].get(o, 0.0)
-            g = m[S(list(i)), S(list(o))]
-            if abs(g - w) > 1e-12 or m.array[a, b] != g or m[S(list(i))][S(list(o))] != g:
+            try:
+                g = m[S(list(i)), S(list(o))]
+                bad = abs(g - w) > 1e-12 or m.array[a, b] != g or m[S(list(i))][S(list(o))] != g
+            except Exception as e:  # noqa: BLE001
+                acc.violation("mapped_value", case, {"input": i, "output": o, "error": repr(e), "ref": float(w)})
+                return
+            if bad:
                 acc.violation("mapped_value", case, {"input": i, "output": o, "impl": float(g), "ref": float(w)})
                 return
         if abs(m.array[a].sum() - vals[a].sum()) > 1e-12:
